@@ -274,6 +274,42 @@ def run(rep: common.Report, tier: str, seed: int, replay=None) -> int:
                 rep.count(len(ref))
                 rep.nontrivial(("runs", lu, screening))
         rep.sample({"systems": systems, "screening": screening, "frames": len(ref), "B_tesla": B_T, "I_amp": I_A})
+    # ---------- a drive that depends on height (current loop above the film) with the film at z0 != 0 ----------
+    from tdgl.sources import CurrentLoop
+    import copy as _copy
+    zbase = _copy.copy(base)
+    zbase = device_in(base, "um")
+    zbase.layer.z0 = 0.8                                   # um
+    zres = {}
+    with tempfile.TemporaryDirectory(prefix="pyt_c08z_") as td:
+        for lu, fu, cu in (("um", "mT", "uA"), ("nm", "uT", "mA"), ("mm", "mT", "nA")):
+            f_ = LU["um"] / LU[lu]
+            dz_ = device_in(zbase, lu)
+            loop = CurrentLoop(current=2.0e-3 / CU[cu], radius=1.5 * f_, center=(0.4 * f_, -0.3 * f_, 2.1 * f_),
+                               current_units=cu, field_units=fu, length_units=lu)
+            opts = runs.make_options(td, solve_time=0.1, dt_init=2e-3, dt_max=2e-3, adaptive=False, save_every=10,
+                                     field_units=fu, current_units=cu, output_file=f"{td}/z_{lu}.h5")
+            try:
+                solz = tdgl.solve(dz_, opts, applied_vector_potential=loop)
+                with h5py.File(solz.path, "r") as f:
+                    last = sorted(f["data"], key=int)[-1]
+                    zres[lu] = (np.abs(np.array(f["data"][last]["psi"])), np.array(f["data"][last]["supercurrent"]))
+            except Exception as e:  # noqa: BLE001
+                zres[lu] = f"{type(e).__name__}: {e}"[:160]
+    if any(isinstance(v, str) for v in zres.values()):
+        if not all(isinstance(v, str) for v in zres.values()):
+            rep.violation("a height-dependent drive (current loop) over a film at z0 != 0 runs in one unit system and fails in another",
+                          {k_: (v if isinstance(v, str) else "ran") for k_, v in zres.items()})
+    else:
+        for lu in ("nm", "mm"):
+            da = float(np.max(np.abs(zres[lu][0] - zres["um"][0])))
+            dj = float(np.max(np.abs(zres[lu][1] - zres["um"][1])))
+            if da > 1e-7 or dj > 1e-7 * (1 + float(np.max(np.abs(zres["um"][1])))):
+                rep.violation("with a height-dependent drive (current loop) and a film at z0 != 0 the dimensionless solution depends on the "
+                              "unit system", {"units": lu, "max_d|psi|": da, "max_d_supercurrent": dj,
+                                              "max_supercurrent": float(np.max(np.abs(zres["um"][1])))})
+        rep.count(1)
+        rep.nontrivial(("loop-z0", float(np.max(np.abs(zres["um"][1])))))
     rep.coverage.update({"unit_triples": 27, "correspondence_disagreements": ndis})
     rep.assumptions += ["pint's parsing and registry constants (Phi_0, mu_0) are read once and passed to the model as numbers",
                         "one dimensionless mesh is shared by the three descriptions (Triangle is not scale invariant)",
